@@ -13,6 +13,9 @@ from . import mfcommon as mc
 from .c02 import x_div, x_lt, x_max, x_min, x_sub, x_abs, x_tok, isnan
 
 TOL = 1e-12
+# sklearn-only bases: the oracle is sklearn itself on the first-principles slices; measured deviation on the clean tree is
+# exactly 0.0 (460 comparisons, seeds 0-2), so the floor tolerance is used (was 1e-9)
+SK_TOL = 1e-12
 METHODS = ("between_groups", "to_overall")
 NAMED = ["demographic_parity_difference", "demographic_parity_ratio", "equal_opportunity_difference", "equal_opportunity_ratio"]
 EODDS = ["equalized_odds_difference", "equalized_odds_ratio"]
@@ -154,7 +157,11 @@ class CHECK(Check):
                   "'method' -> transform parameter, else bound with functools.partial; the routed call IS Fairness.derived; unknown "
                   "method string -> ValueError for difference/ratio, ignored by group_min/group_max; a callable without __name__ "
                   "raises AttributeError (finding F17); equalized odds for ANY pair of disparities incl. NaN/inf (Python max/min, "
-                  "NaN-skipping mean) and worst_case >= each component >= ... mean bounds.")
+                  "NaN-skipping mean) and worst_case >= each component >= ... mean bounds. Review R1: the WHOLE generated family from "
+                  "the lifted METRICS_SPEC (generated_family / generated_eq_spec: 18 of 25 functions, 9 of 16 bases, each base with a "
+                  "first-principles definition incl. TNR, FNR, accuracy, zero-one loss, MAE, MSE; the 7 sklearn-only bases have no "
+                  "theorem and are checked by the correspondence only: generated_bases); to_overall variants of equal opportunity / "
+                  "equalized odds; the overall = 0 branch of ratio(to_overall) (NaN); derived_call_eq_finish (routing + MetricFrame call).")
     design_ref = "DESIGN.md section 4, C03"
     quick_cases = 550
     thorough_cases = 6000
@@ -175,8 +182,8 @@ class CHECK(Check):
             "(y, pred) vectors x all partitions into <= 3 groups x weights in {1,2}^n for n <= 4, and unweighted for n = 5, "
             "3 rotating combinations each")
     explanation = ("oracle: group rates from the rows in exact Fractions, then the documented aggregate (IEEE rules for x/0); for "
-                   "sklearn-only base metrics the base value is sklearn's on the first-principles slice. Tolerance 1e-12 (1e-9 for "
-                   "sklearn-only bases). When one of the two equalized-odds ratios is NaN (0/0) both NaN and the other ratio are "
+                   "sklearn-only base metrics the base value is sklearn's on the first-principles slice. Tolerance 1e-12 * max(1,|exact|) for all functions "
+                   "(measured max deviation on the clean tree 1.7e-16; sklearn-only bases exactly 0). When one of the two equalized-odds ratios is NaN (0/0) both NaN and the other ratio are "
                    "accepted from the implementation (the statement does not say); the model follows Python's min/max exactly.")
     trusted = ("sklearn.metrics functions (confusion_matrix normalisation incl. nan_to_num, accuracy_score, zero_one_loss, MAE, MSE; "
                "the sklearn-only bases are used as their own specification on a slice)",
@@ -540,7 +547,7 @@ class CHECK(Check):
                         ok = False
                         probs.append(Problem("property", f"{label} = {v}, first-principles value {x_tok(want[2])} (or NaN)", "C03.eodds_eq_spec"))
                 elif isinstance(want, tuple) and want[0] == "float":
-                    if isinstance(v, str) or abs(v - want[1]) > 1e-9 * max(1.0, abs(want[1])):
+                    if isinstance(v, str) or abs(v - want[1]) > SK_TOL * max(1.0, abs(want[1])):
                         ok = False
                         probs.append(Problem("property", f"{label} = {v}, sklearn on the group slices gives {want[1]}", "C03.generated_eq_spec"))
                 elif not mc.same(v, want, TOL):
